@@ -13,9 +13,20 @@ fam('comb', depth=3, maxstack=4,
     inits=[(S(C4, V4),), (S(INT, i(9)), S(C4, V4)), (S(P(P(INT, NAT), P(STR, BOOL)), p(p(i(1), i(2)), p(s('y'), F_))),)],
     alphabet=[('UNPAIR', 2), ('UNPAIR', 3), ('UNPAIR', 4), ('PAIR', 2), ('PAIR', 3), ('PAIR', 4), ('GET', 1), ('GET', 2), ('GET', 3), ('GET', 4), ('GET', 5), ('GET', 6),
               ('UPDATE', 1), ('UPDATE', 2), ('UPDATE', 3), ('UPDATE', 4), ('UPDATE', 6), ('CAR',), ('CDR',), ('SWAP',), DUP(1), ('COMPARE',),
-              ('LEFT', C4), ('IF_LEFT', (('GET', 3),), (('GET', 4), ('SIZE',)))])
+              ('LEFT', C4), ('IF_LEFT', (('GET', 3),), (('GET', 4), ('SIZE',))),
+              # a structurally equal value rebuilt at run time (its type carries no annotations) next to the annotated original
+              ('SEQ', (DUP(1), ('UNPAIR', 4), ('PAIR', 4))), ('SEQ', (DUP(1), ('UNPAIR', 3), ('PAIR', 3))), ('SEQ', (DUP(1), ('UNPAIR', 2), ('PAIR', 2)))])
+fam('annot_text', depth=4, maxstack=4,
+    inits=[(S(P(STR, NAT), p(s('abc'), i(1))),), (S(P(BYT, P(NAT, NAT)), p(b([1, 2, 3]), p(i(0), i(3)))),)],
+    alphabet=[('CAR',), ('CDR',), ('UNPAIR', 2), ('UNPAIR', 3), PUSH(NAT, i(0)), PUSH(NAT, i(5)), PUSH(NAT, i(1)), ('SLICE',), ('CONCAT',), ('SIZE',), DUP(1), ('SWAP',), ('SOME',),
+              ('NIL', STR), ('CONS',), ('LEFT', NAT), ('DIG', 2)])
+fam('annot_keys', depth=3, maxstack=4,
+    inits=[(S(P(INT, P(NAT, STR)), p(i(1), p(i(2), s('k')))), S(MAP(P(INT, P(NAT, STR)), NAT), ('map', ((p(i(1), p(i(2), s('k'))), i(7)),)))),
+           (S(P(INT, P(NAT, STR)), p(i(1), p(i(2), s('k')))), S(SET(P(INT, P(NAT, STR))), ('set', (p(i(1), p(i(2), s('k'))),))))],
+    alphabet=[('GETK',), ('MEM',), ('SEQ', (('UNPAIR', 3), ('PAIR', 3))), DUP(1), DUP(2), ('SWAP',), ('SEQ', (PUSH(OPT(NAT), some(i(9))), ('SWAP',), ('UPDATEK',))),
+              ('SEQ', (PUSH(BOOL, T_), ('SWAP',), ('UPDATEK',))), ('SIZE',), ('COMPARE',)])
 
-FAMS = ['comb', 'adt', 'optlist', 'types_map', 'types_list']
+FAMS = ['comb', 'annot_text', 'annot_keys', 'adt', 'optlist', 'types_map', 'types_list']
 SCHEMES = ['field-all', 'type-all', 'both-all', 'field-inner-pairs', 'type-inner-pairs']
 
 
@@ -59,13 +70,47 @@ def annotate_instr(ij, scheme):
     return ij
 
 
+def packed_slots(init, env, prog, scheme):
+    """hex of PACK of every packable slot of the final stack (None for unpackable slots / failures)"""
+    from pytezos.michelson.instructions.base import MichelsonInstruction
+    from pytezos.michelson.stack import MichelsonStack
+    try:
+        ann = (lambda tj: annotate_type(tj, scheme)) if scheme else None
+        iann = (lambda ij: annotate_instr(ij, scheme)) if scheme else None
+        stack = MichelsonStack([vmreplay.make_item(t, v, ann) for (t, v) in init])
+        ctxt = vmreplay.make_context(env)
+        for i in prog:
+            ij = vmreplay.terms.instr_json(i)
+            if iann:
+                ij = iann(ij)
+            MichelsonInstruction.match(ij).execute(stack, [], ctxt)
+        out = []
+        for item in stack.items:
+            try:
+                out.append(item.pack().hex())
+            except Exception:
+                out.append(None)
+        return out
+    except Exception as e:   # noqa
+        return ('failed', type(e).__name__)
+
+
 def replay_fn(ctx, prop, fname, st):
     init, env, prog = st['init'], st['env'] if isinstance(st['env'], dict) else {}, st['hist']
     base = vmreplay.classify(st['status'], st['stack'], st['failv'], vmreplay.run_impl(init, env, prog))
     if base is not None:
         return 'other-property'      # disagreement without annotations: C01/C02's business
     bad = None
+    base_packed = packed_slots(init, env, prog, None) if st['status'] == 'running' else None
     for scheme in SCHEMES:
+        if base_packed is not None:
+            ann_packed = packed_slots(init, env, prog, scheme)
+            if ann_packed != base_packed:
+                ctx.mismatch('C17:annotated:%s:PACK-bytes-differ' % scheme, 'family %s program %s on %s: packed bytes of the final stack differ under annotation scheme %s: %s vs %s' % (
+                    fname, json.dumps(to_json(prog)), json.dumps(to_json(init)), scheme, ann_packed, base_packed),
+                    {'family': fname, 'init': to_json(init), 'env': to_json(env), 'hist': to_json(prog), 'status': st['status'], 'stack': to_json(st['stack']),
+                     'failv': to_json(st['failv']), 'scheme': scheme})
+                bad = 'pack'
         got = vmreplay.run_impl(init, env, prog, annotate=lambda tj: annotate_type(tj, scheme), instr_annotate=lambda ij: annotate_instr(ij, scheme))
         res = vmreplay.classify(st['status'], st['stack'], st['failv'], got)
         ctx.count((fname, init, prog, scheme), nontrivial=True)
@@ -89,7 +134,7 @@ def run(ctx):
     fams = {}
     for name in FAMS:
         fams[name] = dict(vmfam.FAMILIES[name])
-        if ctx.quick and name != 'comb':
+        if ctx.quick and name not in ('comb', 'annot_text', 'annot_keys'):
             fams[name]['depth'] = 2
     C01.ASPECTS['C17'] = {'status', 'value', 'type', 'failwith-value'}
     C01.run_families(ctx, 'C17', 'annot', fams, replay_fn=replay_fn)
